@@ -208,8 +208,66 @@ func c05AfterFailure(x *X) {
 	})
 }
 
+// nestedWriter: before it accepts the bytes of its k-th Write it renders ANOTHER table as csv (whatever the renderer
+// holds on to between producing a record and handing it to the writer is then in use by the inner render).
+type nestedWriter struct {
+	buf         strings.Builder
+	calls       int
+	at          int // 0 = on every call
+	inner       *Grid
+	renderInner func(g *Grid) (string, error)
+	innerOut    []string
+}
+
+func (w *nestedWriter) Write(p []byte) (int, error) {
+	w.calls++
+	if w.at == 0 || w.calls == w.at {
+		o, _ := w.renderInner(w.inner)
+		w.innerOut = append(w.innerOut, o)
+	}
+	return w.buf.Write(p)
+}
+
+func c05Reentrant(x *X) {
+	grids := []*Grid{
+		{HasHeader: true, Header: []string{"h1", "h2"}, Rows: []GridRow{{Cells: []string{"a", `q"x`}}, {Sep: true}, {Cells: []string{"c"}}, {Cells: []string{"longer-field-1", "longer-field-2"}}}},
+		{Rows: []GridRow{{Cells: []string{"a,b", "c\nd", ""}}, {Cells: []string{}}}},
+	}
+	inner := &Grid{HasHeader: true, Header: []string{"INNER-HEADER-ONE", "INNER-HEADER-TWO", "3"}, Rows: []GridRow{{Cells: []string{"inner \"cell\" that is fairly long", "i2", "i3"}}, {Cells: []string{"i4"}}}}
+	renderInner := func(g *Grid) (string, error) {
+		t := csv.New()
+		g.Build(t)
+		return t.Render()
+	}
+	x.Explore("re-entrant-writer", ExploreOpts{ShardDepth: 2, Bound: "2 tables x a writer that renders another csv table before accepting its k-th Write (every k, and on every Write); outer and inner outputs judged by the full oracle"}, func(c *Chooser) {
+		g := grids[c.Choose(len(grids))]
+		probe := csv.New()
+		g.Build(probe)
+		fw := &faultWriter{}
+		probe.RenderTo(fw)
+		k := c.Choose(fw.calls + 1)
+		t := csv.New()
+		g.Build(t)
+		c.Logf("table %s rendered to a writer that renders a second csv table before accepting Write #%d (0 = every Write)", g, k)
+		x.Transition(1)
+		x.Nontrivial(fmt.Sprint(g.ShapeKey(), k))
+		tags := append(g.Tags(), "re_entrant_writer")
+		w := &nestedWriter{at: k, inner: inner, renderInner: renderInner}
+		var err error
+		if p, val, site := Safe(func() { err = t.RenderTo(w) }); p {
+			x.FailSite("C05.no_panic", append(tags, "panic"), site, "csv panicked: %v", val)
+			return
+		}
+		c05Judge(x, g, tags, w.buf.String(), err)
+		for _, o := range w.innerOut {
+			c05Judge(x, inner, append(tags, "inner_render"), o, nil)
+		}
+	})
+}
+
 func runC05(x *X) {
 	c05AfterFailure(x)
+	c05Reentrant(x)
 	ldepth := x.Pick(4, 5)
 	lops := lifeOps(false, false)
 	x.Explore("lifecycle", ExploreOpts{ShardDepth: 2, Bound: fmt.Sprintf("one table + one long-lived csv wrapper: all sequences of <=%d operations over %d in-place modifications, Render, failed RenderTo", ldepth, len(lops))}, func(c *Chooser) {
